@@ -318,6 +318,12 @@ def _ops():
         ('psource', ['B_l2', 'P1'], lambda b, x: b.point_source(x[0, :1])),
         ('mixed', ['B_p2', 'p1'], lambda b, e: fem.BilinearForm(lambda u, v, w: u * v).assemble(b, b.with_element(e))),
         ('load', ['B_q2'], lambda b: unit_load.assemble(b)),
+        ('form_wx_wh', ['B_p2'], lambda b: fem.BilinearForm(lambda u, v, w: w.x[0] * u * v + w.h * u * v).assemble(b)),
+        ('fform_wn', ['FB_p2'], lambda fb: fem.LinearForm(lambda v, w: w.n[0] * v * w.x[1] + w.h * v).assemble(fb)),
+        ('coo_add', ['B_p2'], lambda b: _coo_add(mass, b)),
+        ('coo_own_add', ['form_mass', 'B_p2'], lambda f, b: _coo_add(f, b)),
+        ('global_coords', ['B_p2'], lambda b: [b.global_coordinates().value, b.mesh_parameters().value, b.doflocs]),
+        ('fglobal_coords', ['FB_p2'], lambda fb: [fb.global_coordinates().value, fb.mesh_parameters().value, fb.normals.value]),
         ('asm_then_scale', ['B_p2'], lambda b: _inplace_scaled(mass.assemble(b))),
         ('asm_own_form', ['form_mass', 'B_p2'], lambda f, b: f.assemble(b)),
         ('asm_own_then_setdiag', ['form_mass', 'B_p2'], lambda f, b: _inplace_diag(f.assemble(b))),
@@ -366,6 +372,10 @@ def _ops():
         ('rule_hex3', [], lambda: list(get_quadrature(rd.RefHex, 3))),
         ('rule_wedge3', [], lambda: list(get_quadrature(rd.RefWedge, 3))),
         ('rule_line3', [], lambda: list(get_quadrature(rd.RefLine, 3))),
+        ('rule_tri3_then_scale', [], lambda: _scale_rule(get_quadrature(rd.RefTri, 3))),
+        ('rule_quad3_then_scale', [], lambda: _scale_rule(get_quadrature(rd.RefQuad, 3))),
+        ('refdom_tables', [], lambda: [np.array(rd.RefTri.p), np.array(rd.RefQuad.p), np.array(rd.RefTet.p), np.array(rd.RefHex.p),
+                                       np.array(rd.RefTri.normals), np.array(rd.RefTet.normals)]),
     ]
     D = np.array([0, 3, 4], dtype=np.int32)
     xs = lambda A: np.linspace(0, 1, A.shape[0])
@@ -394,6 +404,20 @@ def _mesh_numbers(m):
     b = fem.Basis(m, fem.ElementTriP1())
     return [m.p, m.t, mass.assemble(b), b.doflocs, m.mapping().detDF(np.array([[.25], [.25]])),
             m.element_finder()(*m.p[:, m.t[:, 0]].mean(axis=1)[:, None])]
+
+
+def _coo_add(form, b):
+    c = form.coo_data(b)
+    s2 = c + c
+    return [s2.tocsr(), c.tocsr(), s2.todefault(), c.todefault()]
+
+
+def _scale_rule(rule):
+    X, W = rule
+    out = [X.copy(), W.copy()]
+    W *= 2.0                    # the caller owns what it was handed
+    X += 0.125
+    return out
 
 
 def _inplace_scaled(A):
